@@ -40,6 +40,12 @@ class Opts(object):
         self.delete = False
         self.return_value = True
         self.names = None          # optional identifier pool override (C11)
+        self.mutation = False      # extra params m (list) and o (object with attribute v), mutated and read
+        self.boolops = False       # and/or/not/conditional expressions with side-effecting operands
+        self.comprehension = False
+        self.global_ = False       # `global G` + assignments to G
+        self.fresh_for_targets = False   # every for loop gets its own target name (i1, i2, ...) never assigned elsewhere
+        self.helper_calls = False  # calls to module-level helpers H1 / H2 (recursive conversion)
         self.__dict__.update(kw)
 
 
@@ -68,7 +74,25 @@ class Gen(object):
         n = self.r.randint(0, min(maxn, len(pool)))
         return [self.r.choice(pool) for _ in range(n)]
 
-    def texpr(self, defined):
+    def texpr(self, defined, depth=0):
+        o = self.o
+        r = self.r
+        if o.reads != 'none' and depth < 2:
+            c = r.random()
+            if o.boolops and c < 0.12:
+                return '(%s %s %s)' % (self.texpr(defined, depth + 1), r.choice(['and', 'or']), self.texpr(defined, depth + 1))
+            if o.boolops and c < 0.17:
+                return '(not %s)' % self.texpr(defined, depth + 1)
+            if o.boolops and c < 0.25:
+                return '(%s if %s else %s)' % (self.texpr(defined, depth + 1), self.dexpr(defined), self.texpr(defined, depth + 1))
+            if o.boolops and c < 0.30 and defined:
+                return '(%s %s %s)' % (r.choice(sorted(defined)), r.choice(['==', '!=', '<', '+', '-', '*']), self.texpr(defined, depth + 1))
+            if o.comprehension and c < 0.36:
+                return '[%s for q in L(%d)]' % (self.texpr(defined | {'q'}, depth + 1), self.key())
+            if o.mutation and c < 0.42:
+                return r.choice(['o.v', 'm[0]', 'len(m)'])
+            if o.helper_calls and c < 0.6:
+                return r.choice(['H1(%s)', 'H2(%s)', 'H2(%s, v=4)']) % self.texpr(defined, depth + 1)
         args = ''.join(', ' + v for v in self.reads(defined))
         return 'T(%d%s)' % (self.key(), args)
 
@@ -114,7 +138,23 @@ class Gen(object):
             choices += ['def']
         if o.delete and defined:
             choices += ['del']
+        if o.mutation:
+            choices += ['attr', 'sub', 'append']
+        if o.global_:
+            choices += ['global']
         c = r.choice(choices)
+        if c == 'attr':
+            self.emit(ind, 'o.v %s %s' % (r.choice(['=', '=', '+=']), self.texpr(defined)))
+            return defined, True
+        if c == 'sub':
+            self.emit(ind, 'm[0] %s %s' % (r.choice(['=', '=', '+=']), self.texpr(defined)))
+            return defined, True
+        if c == 'append':
+            self.emit(ind, 'm.append(%s)' % self.texpr(defined))
+            return defined, True
+        if c == 'global':
+            self.emit(ind, 'G = %s' % self.texpr(defined))
+            return defined, True
         if c == 'assign':
             v = r.choice(self.vars)
             self.emit(ind, '%s = %s' % (v, self.texpr(defined)))
@@ -169,7 +209,7 @@ class Gen(object):
                 self.block(ind + 1, defined, depth + 1, in_loop, ihf)
             return defined, True
         if c == 'for':
-            v = r.choice(self.vars)
+            v = ('i%d' % self.key()) if o.fresh_for_targets else r.choice(self.vars)
             self.emit(ind, 'for %s in L(%d):' % (v, self.key()))
             self.block(ind + 1, defined | {v}, depth + 1, True, ihf)
             if o.loop_else and r.random() < 0.2:
@@ -229,7 +269,10 @@ def gen_function(rnd, opts=None, name='f'):
     """-> source text of one function (ends with a newline)."""
     opts = opts or Opts()
     g = Gen(rnd, opts)
-    g.emit(0, 'def %s(%s):' % (name, ', '.join(PARAMS)))
+    params = PARAMS + (['m', 'o'] if opts.mutation else [])
+    g.emit(0, 'def %s(%s):' % (name, ', '.join(params)))
+    if opts.global_:
+        g.emit(1, 'global G')
     defined = set(PARAMS)
     defined = g.block(1, defined, 0, False, False, minlen=2)
     if rnd.random() < 0.8:
